@@ -612,6 +612,9 @@ func TestProp(t *testing.T) {
 		rng := r.Rand("c13-random")
 		for i := 0; i < nRand; i++ {
 			n := rng.Intn(30)
+			if i%40 == 39 { // long slices
+				n = rng.Range(200, 3000)
+			}
 			s := make([]int, n)
 			rv := []int{3, 10, 1000}[rng.Intn(3)]
 			for j := range s {
@@ -647,6 +650,11 @@ func TestProp(t *testing.T) {
 				emit(Case{Fn: "ByKey", Maps: ms})
 			default:
 				emit(Case{Fn: "Range", Args: []float64{float64(rng.Range(-40, 40)), float64(rng.Range(-7, 7)), float64(rng.Range(-40, 40))}})
+				if i%10 == 0 { // long progressions
+					emit(Case{Fn: "Range", Args: []float64{float64(rng.Range(-3000, 3000)), float64(rng.Range(-90, 90)), float64(rng.Range(-3000, 3000))}})
+					emit(Case{Fn: "Range", Args: []float64{float64(rng.Range(-3000, 3000)), float64(rng.Range(-3000, 3000))}})
+					emit(Case{Fn: "Range", Args: []float64{float64(rng.Range(-3000, 3000))}})
+				}
 			}
 		}
 	}, run)
